@@ -567,6 +567,12 @@ func (j *C16Job) Run(deadline time.Time) *runner.JobResult {
 			// a promise id that a trigger installed by the harness refuses
 			return []*t_aio.Command{{Kind: t_aio.CreatePromise, CreatePromise: &t_aio.CreatePromiseCommand{Id: "ERR", Param: val("e"), Timeout: 1, Tags: map[string]string{}, CreatedOn: 1}}}
 		}
+		if be.Name == "sqlite" {
+			if err := be.InstallCommitFaults(); err != nil {
+				res.HarnessErr = err.Error()
+				return res
+			}
+		}
 		if _, err := be.DB.Exec(`CREATE TRIGGER IF NOT EXISTS verif_err BEFORE INSERT ON promises WHEN NEW.id = 'ERR' BEGIN SELECT RAISE(ABORT, 'verif injected error'); END`); err != nil {
 			res.HarnessErr = err.Error()
 			return res
@@ -619,6 +625,36 @@ func (j *C16Job) Run(deadline time.Time) *runner.JobResult {
 					}
 					if got := NormText(be.Dump()); got != n.model.NormText() {
 						viol("C16:failed-batch-left-effects", "error injected at position %d of batch [%s, %s] after %v: the database changed\n%s--- expected\n%s", pos, alpha[a].Label, alpha[j.First].Label, labelsOf(n.path), got, n.model.NormText())
+					}
+				}
+				// every command succeeds, COMMIT itself fails
+				if be.Name == "sqlite" {
+					ma := n.model.Clone()
+					_, fa := applyTx(ma, alpha[a])
+					_, fb := applyTx(ma, alpha[j.First])
+					if !fa && !fb {
+						replay(n.path)
+						be.Arm(1)
+						_, errs := be.Exec([][]*t_aio.Command{alpha[a].Cmds(), alpha[j.First].Cmds()})
+						be.Arm(0)
+						res.Transitions++
+						failed := 0
+						for _, e := range errs {
+							if e != nil {
+								failed++
+							}
+						}
+						got := NormText(be.Dump())
+						switch {
+						case got == n.model.NormText() && failed == len(errs):
+							res.Counters["failed_commits"]++ // all-or-none: none, and everybody was told
+						case got == n.model.NormText() && failed == 0 && ma.NormText() == n.model.NormText():
+							res.Counters["commit_fault_not_triggered(no row changed)"]++
+						case got == n.model.NormText():
+							viol("C16:failed-commit-reported-as-success", "after %v the COMMIT of batch [%s, %s] failed and nothing was stored, but %d of %d submissions were told they succeeded", labelsOf(n.path), alpha[a].Label, alpha[j.First].Label, len(errs)-failed, len(errs))
+						default:
+							viol("C16:failed-commit-left-effects", "after %v the COMMIT of batch [%s, %s] was made to fail (%d of %d submissions got an error) but the database changed\n%s--- before\n%s", labelsOf(n.path), alpha[a].Label, alpha[j.First].Label, failed, len(errs), got, n.model.NormText())
+						}
 					}
 				}
 			}
